@@ -173,6 +173,7 @@ def run(ctx):
                 traces.append(tf)
                 scripts_by_file[os.path.basename(tf)] = byid
                 cov['edges_replayed'] += len(scripts)
+                cov['scripts_ending_in_their_pre_state'] = cov.get('scripts_ending_in_their_pre_state', 0) + we.realised(tf, scripts)
     # (B) random histories
     nh, steps, maxlen = conf['rand_size'][ti]
     nrand = 0
